@@ -115,6 +115,12 @@ def build(spec):
         for i in range(n):
             a = B0 if fd["parent"][i] < 0 else Bs[fd["parent"][i]]
             Ls.append(mk_line(f"F{f}L{i}", a, Bs[i], (fd.get("cap") or [None] * n)[i]))
+        for k, ev in (fd.get("ev") or {}).items():
+            from relsad.network.components import EVPark
+            from relsad.Table import Table
+            hours = ev.get("hours", list(range(24)))       # rows in any order
+            EVPark(f"F{f}EV{k}", Bs[int(k)], num_ev_dist=Table(x=np.array(hours), y=np.array([float(Fraction(v)) for v in ev["table"]])),
+                   v2g_flag=ev.get("v2g", True))
         for k, pr in (fd.get("prod") or {}).items():
             from relsad.network.components import Production
             P = Production(f"F{f}P{k}", Bs[int(k)], pmax=N(pr.get("pmax", "10")), qmax=N(pr.get("qmax", "10")))
